@@ -217,6 +217,7 @@ package leveldb
 //@   ensures [C10:one-ack-per-merged-writer] sent(db.writeAckC) == old(sent(db.writeAckC)) + merged
 //@   ensures [C10:handoff-iff-overflow] sentv(db.writeMergedC, false) == old(sentv(db.writeMergedC, false)) + (overflow ? 1 : 0)
 //@   ensures [C10:no-merged-reply-here] sentv(db.writeMergedC, true) == old(sentv(db.writeMergedC, true))
+//@   ensures [C10:takes-no-reply-or-ack-and-asks-for-no-merge] recvd(db.writeAckC) == old(recvd(db.writeAckC)) && recvd(db.writeMergedC) == old(recvd(db.writeMergedC)) && recvdv(db.writeMergedC, true) == old(recvdv(db.writeMergedC, true)) && sent(db.writeMergeC) == old(sent(db.writeMergeC))
 
 // C09 (no call spins forever): the write throttle retries; a retry that has not waited for a compaction to finish is
 // the one-millisecond slowdown, and it is taken at most once per write (it flips `delayed`), so the retry loop of
@@ -239,6 +240,7 @@ package leveldb
 //@   ensures [C09,C10:released-on-every-path] held(db.writeLockC) == old(held(db.writeLockC)) - 1
 //@   ensures [C10:every-merged-writer-acked-once] sent(db.writeAckC) - old(sent(db.writeAckC)) == sentv(db.writeMergedC, true) - old(sentv(db.writeMergedC, true))
 //@   ensures [C10:every-request-answered-once] recvd(db.writeMergeC) - old(recvd(db.writeMergeC)) == (sentv(db.writeMergedC, true) - old(sentv(db.writeMergedC, true))) + (sentv(db.writeMergedC, false) - old(sentv(db.writeMergedC, false)))
+//@   ensures [C10:the-leader-takes-no-reply-or-ack-and-asks-for-no-merge] recvd(db.writeAckC) == old(recvd(db.writeAckC)) && recvd(db.writeMergedC) == old(recvd(db.writeMergedC)) && recvdv(db.writeMergedC, true) == old(recvdv(db.writeMergedC, true)) && sent(db.writeMergeC) == old(sent(db.writeMergeC))
 //@   ensures [C10:one-release-or-handoff] calls("(*DB).unlockWrite") == old(calls("(*DB).unlockWrite")) + 1
 //@   ensures [C10:one-journal-record-one-publication] result == nil ==> (calls("(*DB).writeJournal") == old(calls("(*DB).writeJournal")) + 1 && calls("(*DB).addSeq") == old(calls("(*DB).addSeq")) + 1)
 //@   ensures [C10:never-two-journal-records] calls("(*DB).writeJournal") <= old(calls("(*DB).writeJournal")) + 1 && calls("(*DB).addSeq") <= old(calls("(*DB).addSeq")) + 1
